@@ -764,7 +764,6 @@ func TestVerifC35Parse(t *testing.T) {
 	r.Floor("space_noise_kinds", 6)
 }
 
-
 // Watchdogs of the crash box. A child whose progress index has not moved while
 // the process consumed c35StallCPU of CPU time (or for c35Stall of wall time) is
 // suspected to hang: a Parse call on < 64 KiB takes milliseconds. The suspicion
